@@ -7,9 +7,24 @@ from harness import fml
 SCALE = 0.25        # one tick = 0.25 s; all generated ticks are even so that mid-points are ticks too
 
 
-def gen_signal(rng, maxn=6, start0=True):
+def gen_signal(rng, maxn=6, start0=True, stair=None):
     t = 0 if start0 else rng.choice([0, 2, 4])
     out = []
+    if stair or (stair is None and maxn >= 6 and rng.random() < 0.3):
+        # staircase: many short plateaus in rising / falling runs, so that one window of a bounded operator covers several
+        # segments and the sliding-window code has to discard more than one dominated entry at a time
+        n = rng.randint(4, 2 * maxn)
+        v = rng.randint(-4, 5)
+        while len(out) < n:
+            step = rng.choice([1, 2, -1, -2])
+            for _ in range(rng.randint(1, 4)):
+                if len(out) < n:
+                    out.append([t, v])
+                    t += rng.choice([1, 1, 2, 2, 4])
+                    v = max(-9, min(9, v + step))
+            if rng.random() < 0.4:
+                v = rng.randint(-6, 7)
+        return out
     n = rng.randint(1, maxn)
     for i in range(n):
         out.append([t, rng.randint(-4, 5)])
